@@ -273,6 +273,15 @@ def run_unit(unit, tier):
                     continue
                 class_paths = C13.class_mapping_paths(spec, tree1)
                 strong_case(res, case, spec, fam, tree0, op, site, tree1, class_paths)
+            # unknown enum members that are near misses of a real member (one letter dropped / added / case changed)
+            members = {m for c in spec['classes'] if c.get('kind') == 'enum' for m in c['members']}
+            for site, node in docs.positions(tree0):
+                if node[0] == 's' and node[2] in members and not docs.is_key_path(site):
+                    m = node[2]
+                    for near in (m[:-1], m + 'x', m.capitalize() if m.capitalize() != m else m.upper(), m[1:]):
+                        if near and near not in members:
+                            tree1 = docs.replace(tree0, site, ('s', node[1], near))
+                            strong_case(res, case, spec, fam, tree0, 'nonmember', site, tree1, ())
     # weak claim over the whole document set of every model
     names = [c.__name__ for c in case.b.registered if c.__name__ in ('K', 'In', 'C1', 'C2')]
     tags = ['!' + n for n in names] + ['!Unknown', '!!str']
